@@ -13,7 +13,7 @@ REQUIRED_MONITORS = ["impulse-pairs(cov_mm)", "impulse-pairs(cov_R)", "definitio
                      "bilinearity(cov_mm)", "bilinearity(cov_R)", "result.H@SSIcov", "result.H@SSIdat"]
 ALL_STATES = [f"l={l}" for l in range(1, 5)] + [f"br={b}" for b in range(1, 6)] + ["ref=subset", "ref=all", "ref unordered"]
 REQUIRED_STATES = [f"l={l}" for l in range(1, 5)] + [f"br={b}" for b in range(1, 6)] + ["ref=subset", "Yref is Y (same object)", "same instance re-run with another ref_ind",
-                                                                                                 "integer-typed records", "ordmax above br * (number of references)"]
+                                                                                                 "integer-typed records", "ordmax above br * (number of references)", "matrix requested together with the uncertainty factor"]
 RULE = ("(a) exhaustive over a basis: for every channel count 1..4, every reference subset, br 1..5 and the listed record lengths, build_hank "
         "is evaluated on ALL pairs of unit impulses (e_{a,s}, e_{b,t}); each pair must light exactly the cells (i,a;j,b) with lag i+j+1 "
         "(cov_mm) / br+i-j (cov_R) with the uniform weight, nothing else; (b) random data, shapes up to 8 channels / br 12 / 400 samples "
@@ -194,6 +194,15 @@ def run_random(ctx, rng):
         sc = np.max(np.abs(H)) + np.max(np.abs(H2)) + np.max(np.abs(H5))
         ctx.check(np.max(np.abs(H3 - (a_ * H + b_ * H2))) <= 1e-10 * sc * 3 and np.max(np.abs(H4 - (a_ * H + b_ * H5))) <= 1e-10 * sc * 3,
                   f"{method}:not_bilinear", f"{method}: build_hank is not bilinear in (data, reference data)")
+    if rng.random() < 0.3:
+        # asking for the uncertainty factor as well must not change the matrix itself
+        nb = int(rng.integers(2, 9))
+        Hu, Tu = ssi.build_hank(Y, Yref, br, "cov_mm", calc_unc=True, nb=nb)
+        ctx.ev("definition(cov_mm, calc_unc=True)")
+        E = def_cov_mm(Y.astype(float), Yref.astype(float), br)
+        ctx.check(np.shape(Hu) == shape and np.max(np.abs(Hu - E)) <= 1e-10 * np.max(np.abs(E)), "cov_mm:definition_mismatch_with_calc_unc",
+                  lambda: f"cov_mm with calc_unc=True, nb={nb}: matrix differs from the definition by {np.max(np.abs(Hu - E)) / np.max(np.abs(E)):.2e} (l={l}, ref={refidx}, br={br}, Ndat={Nd})")
+        ctx.state("matrix requested together with the uncertainty factor")
     ctx.check(np.array_equal(Y, Yc) and np.array_equal(Yref, Yrc), "inputs_modified", "build_hank modified its inputs")
     # data-driven
     if N - 1 >= (p + 1) * (l + r):
@@ -234,12 +243,14 @@ def run_classes(ctx, rng):
     if rng.random() < 0.25:
         data = np.round(data / np.max(np.abs(data)) * float(rng.choice([500, 5000, 30000]))).astype(np.int16)
         ctx.state("integer-typed records")
+    unc = rng.random() < 0.3
     for method, cls, fdef in (("cov_mm", SSIcov, def_cov_mm), ("cov_R", SSIcov, def_cov_R), ("dat", SSIdat, None)):
         ss = SingleSetup(data.copy(), 100.0)
         ordmax = min(int(rng.choice([6, 1000])), br * l, (br + 1) * r)  # also the largest order the library accepts for this br
         if ordmax > br * r:
             ctx.state("ordmax above br * (number of references)")
-        alg = cls(name="a", br=br, ordmax=ordmax, method=method, ref_ind=refidx)
+        kw_unc = dict(calc_unc=True, nb=int(rng.integers(3, 9))) if (unc and method == "cov_mm") else {}
+        alg = cls(name="a", br=br, ordmax=ordmax, method=method, ref_ind=refidx, **kw_unc)
         ss.add_algorithms(alg)
         ss.run_all()
         H = alg.result.H
